@@ -1021,6 +1021,17 @@ func bindFuncParams(fn *ssa.Function) func() {
 					// a method value (c.SeekFirst): the parameter stands for that method (its receiver is bound)
 					if m, rv := funcAndReceiver(a); m != nil && rv != nil {
 						lit = m
+					} else if strings.HasSuffix(lit.Name(), "$thunk") {
+						// a method expression ((*sync.Map).LoadOrStore): the parameter stands for that method
+						var target *ssa.Function
+						for _, tb := range lit.Blocks {
+							for _, tin := range tb.Instrs {
+								if tc, ok := tin.(*ssa.Call); ok && target == nil {
+									target = tc.Call.StaticCallee()
+								}
+							}
+						}
+						lit = target
 					} else {
 						lit = nil
 					}
